@@ -306,7 +306,7 @@ PROPS = {
         level="proof",
         needs_bita=True,
         required_theorems=["header_layout", "proto_roundtrip", "writer_invariants", "descriptors_unique_first_occurrence", "reader_reports_verbatim", "lib_temp_file_flushed_fact", "cli_sizes_fit_u32_fact", "size_text_denotes", "chunker_options_accepted_iff",
-                           "cli_accepts_only_recordable_options", "cli_requested_is_reported"],
+                           "cli_accepts_only_recordable_options", "cli_requested_is_reported", "cli_metadata_map", "cli_options_with_metadata_ok"],
         suites=dict(quick=[("py", "c11_conformance"), ("l1", "fmt"), ("l1", "opts")], thorough=[("py", "c11_conformance"), ("l1", "fmt"), ("l1", "opts")]),
         rule="archives of both writers over random sources/configs/hash lengths/compression/metadata (incl. empty key, non-ASCII, long values): "
              "Python conformance checklist on the raw bytes; prost vs model: encode-dict byte-exact, decode-dict field-exact on encodings, "
